@@ -28,6 +28,7 @@ class Forward:
         self.order = order
         self.env_in = {}
         self.env_out = {}
+        self.events = []   # (block, 'store', place_expr, value) / (block, 'call', callee, args) in program order
         self.run()
 
     # state: {'L': {local: expr}, 'M': {access-path-text: expr}}
@@ -52,11 +53,14 @@ class Forward:
                 if s["s"] != "assign":
                     continue
                 v = self.rvalue(env, s["rv"])
+                if s["lhs"]["p"]:
+                    self.events.append((b, "store", self.place(env, s["lhs"]), v))
                 self.store(env, s["lhs"], v)
             t = f.blocks[b]["term"]
             if t["t"] == "call":
                 args = tuple(self.operand(env, a) for a in t["args"])
                 e = ("call", callee_of(t), args, b)
+                self.events.append((b, "call", callee_of(t), args))
                 # a `&mut` argument into memory we track: the callee may write it -> havoc that path
                 for a in t["args"]:
                     if a["k"] in ("copy", "move") and a["pl"]["ty"].startswith("&mut"):
@@ -124,6 +128,8 @@ class Forward:
 
     def read(self, env, p):
         e = self.place(env, p)
+        if not p["p"]:
+            return e  # a plain local: its value (possibly a reference), not the memory it may point to
         key = self._mem_key(e)
         if key is not None:
             if key in env["M"]:
@@ -186,8 +192,8 @@ class Forward:
         key = self._mem_key(e)
         if key is not None:
             env["M"][key] = v
-        else:
-            # partial write to a local aggregate: forget the local
+        elif "*" not in lhs["p"]:
+            # partial write to a local aggregate: forget the local (a store THROUGH a pointer local leaves the pointer intact)
             env["L"][lhs["l"]] = ("unknown", "partial")
 
     def final_memory(self):
